@@ -1,10 +1,11 @@
 /-!
-# A model of IEEE-754 binary64 multiplication on finite non-negative values
+# A model of IEEE-754 binary64 multiplication and division on finite non-negative values
 
 A finite non-negative double is an integer multiple of 2^-1074; it is represented by that integer
-(`Nat`, "units").  `roundTo N k` rounds the real number `N / 2^k` to the nearest value with a 53-bit
+(`Nat`, "units").  `roundQ N D` rounds the rational number `N / D` to the nearest value with a 53-bit
 significand, ties to even (no upper exponent limit: probabilities are ≤ 1, see `mul_le_one`).
-`mul a b = roundTo (a * b) 1074` is therefore `fl(a·b)`.
+`mul a b = roundQ (a * b) 2^1074` is therefore `fl(a·b)`, and `ratio c t = roundQ (c * 2^1074) t` is
+`fl(c / t)` in units — CPython's `int / int` (correctly rounded) and `float / float`.
 -/
 namespace Pcfg.SF
 
@@ -13,24 +14,30 @@ def bitLen (n : Nat) : Nat := if n = 0 then 0 else n.log2 + 1
 /-- number of low bits of the integer part that do not fit into a 53-bit significand -/
 def shiftOf (q : Nat) : Nat := bitLen q - 53
 
-/-- round-half-even decision: `n` = truncated significand, `r` = remainder, `2^t` = one unit -/
-def roundUp (n r t : Nat) : Bool :=
-  decide (2 ^ t < 2 * r) || (decide (2 * r = 2 ^ t) && n % 2 == 1)
+/-- round-half-even decision: `n` = truncated significand, `r` = remainder, `T` = one unit -/
+def roundUp (n r T : Nat) : Bool :=
+  decide (T < 2 * r) || (decide (2 * r = T) && n % 2 == 1)
 
-/-- significand of `N / 2^t` rounded to nearest, ties to even -/
-def roundAt (N t : Nat) : Nat :=
-  if roundUp (N / 2 ^ t) (N % 2 ^ t) t then N / 2 ^ t + 1 else N / 2 ^ t
+/-- `N / T` rounded to the nearest integer, ties to even -/
+def roundAt (N T : Nat) : Nat :=
+  if roundUp (N / T) (N % T) T then N / T + 1 else N / T
 
-/-- `N / 2^k` rounded to a 53-bit significand (result again in units of 1) -/
-def roundTo (N k : Nat) : Nat :=
-  let s := shiftOf (N / 2 ^ k)
-  roundAt N (k + s) * 2 ^ s
+/-- `N / D` rounded to a 53-bit significand (result again in units of 1) -/
+def roundQ (N D : Nat) : Nat :=
+  let s := shiftOf (N / D)
+  roundAt N (D * 2 ^ s) * 2 ^ s
+
+/-- `N / 2^k` rounded to a 53-bit significand -/
+def roundTo (N k : Nat) : Nat := roundQ N (2 ^ k)
 
 def unitExp : Nat := 1074
 /-- 1.0 -/
 def one : Nat := 2 ^ unitExp
 /-- `fl(a * b)` -/
 def mul (a b : Nat) : Nat := roundTo (a * b) unitExp
+/-- `fl(a / b)` for two doubles given in units, and equally `fl(c / t)` for two Python ints
+(both are the rational `a / b`, expressed in units by the factor 2^1074); `b > 0` -/
+def ratio (a b : Nat) : Nat := roundQ (a * 2 ^ unitExp) b
 
 /-- bit pattern → units (`none` for negative, infinite, NaN) -/
 def ofBits (b : Nat) : Option Nat :=
